@@ -294,12 +294,31 @@ CHECKS["C16"] = dict(
               "resolver substitutes through the hierarchy",
     text="Decides, for the enumerated hierarchies (containers, two parameters, re-ordered parameters, partial binding, "
          "non-generic child of a parametrised base, three levels, shadowing annotation, renamed variable, bound / constrained "
-         "/ plain TypeVars used bare, two generic bases) and 35 parametrisations, that the type used to load and to dump each "
+         "/ plain TypeVars used bare, two generic bases, annotations in another variable order, plain class beside a subscripted "
+         "base, plain subclass of a generic, PEP 604 unions, same-spelling override, diamond; dataclass plus TypedDict, attrs, "
+         "NamedTuple and pydantic hierarchies) and 75 parametrisations (quick), that the type used to load and to dump each "
          "field is the annotation with every type variable replaced by the bound argument or the documented implicit "
          "parameter: every pool type has its own strict loader function, so the bound function identifies the type. Universal "
          "over data (nothing emitted is called); bounded over hierarchies.",
     level_note="Trusted: Python ast; the resolver oracle (_g_resolve in sa/genprog.py) written from the property statement; "
-               "distinct pool types have distinct loader functions. Dataclass only (other kinds: C17); TypeVarTuple not "
-               "enumerated.",
+               "distinct pool types have distinct loader functions. TypeVarTuple, InitVar, class-init models not "
+               "enumerated. Tier S: memo keys inside the resolver singletons.",
     design_ref="DESIGN.md 8.9",
 )
+
+
+CHECKS["C01"] = dict(
+    category="other",
+    technique="sibling cross-check of loader and dumper: (1) per scalar provider the type the dumper emits against the exact-type "
+              "guards of the strict loader; (2) on compiler output (tier G) the field paths of the emitted model loader against "
+              "those of the emitted model dumper of the same retort, for enumerated name_mapping configurations and model kinds",
+    text="Does NOT decide round-trip equality (it quantifies over runtime values). Decides two necessary conditions whose truth is "
+         "in the shape of the code: the representation a scalar dumper emits is of a type its strict loader accepts (otherwise "
+         "load(dump(x)) raises for every x), and every field that the generated loader and dumper of one configuration both "
+         "handle is read from exactly the path it is written to (otherwise load(dump(x)) loses or misplaces the field for "
+         "every x). The second clause compares the two emitted programs with each other; no oracle is involved.",
+    level_note="Trusted: Python ast; the audit of emitted programs (sa/genaudit.py). Not decided: equality of values, lossy "
+               "representations (omit_default, sets, float precision), extras, non-model container codecs beyond the scalar table.",
+    design_ref="DESIGN.md 8.10",
+)
+NA.discard("C01")
